@@ -80,6 +80,7 @@ type wWorld struct {
 	FDSet   bool     `json:"fdset"` // entry point ProcessFileDescriptorSet* (harness only; targets are then empty)
 	Probes  []string `json:"probes"`  // C02: names to look up
 	Walks   []walkJ  `json:"walks"`   // C07: start nodes and visitor policies
+	Queries []queryJ `json:"queries"` // C05: dependency accessor calls, in order
 }
 
 type ref struct {
